@@ -381,5 +381,8 @@ def check_fastcc(ctx) -> None:
 def run(ctx) -> None:
     ctx.rule("C19.blocked", "oracle evaluation: find_blocked_reactions = requested reactions with an all-zero exact range", floor=5)
     ctx.rule("C19.fastcc", "oracle evaluation: fastcc verdicts rest on exact per-reaction problems", floor=4)
-    check_find_blocked(ctx)
-    check_fastcc(ctx)
+    for chk in (check_find_blocked, check_fastcc):
+        try:
+            chk(ctx)
+        except AnalysisError as exc:
+            ctx.defer(str(exc))
